@@ -562,7 +562,7 @@ func (c *Client) processSuback(suback *packet.Suback) error {
 	// remove packet from store
 	err := c.Session.DeletePacket(session.Outgoing, suback.ID)
 	if err != nil {
-		return err
+		return c.die(err, true)
 	}
 
 	// get future
@@ -579,7 +579,7 @@ func (c *Client) processSuback(suback *packet.Suback) error {
 		for _, code := range suback.ReturnCodes {
 			if code == packet.QOSFailure {
 				subscribeFuture.Cancel(nil)
-				return ErrFailedSubscription
+				return c.die(ErrFailedSubscription, true)
 			}
 		}
 	}
@@ -595,7 +595,7 @@ func (c *Client) processUnsuback(unsuback *packet.Unsuback) error {
 	// remove packet from store
 	err := c.Session.DeletePacket(session.Outgoing, unsuback.ID)
 	if err != nil {
-		return err
+		return c.die(err, true)
 	}
 
 	// get future
@@ -664,7 +664,7 @@ func (c *Client) processPubackAndPubcomp(id packet.ID) error {
 	// remove packet from store
 	err := c.Session.DeletePacket(session.Outgoing, id)
 	if err != nil {
-		return err
+		return c.die(err, true)
 	}
 
 	// get future
